@@ -437,9 +437,11 @@ def merge (self other : PartialInfo) : PartialInfo × Option MergeError :=
     -- note: `a.received` is left as it is (the defect D10)
     ({ a with info := { a.info with clients := a.info.clients ++ b.info.clients } }, none)
 
-/-- `get_info`: sorts the clients in place when the count matches -/
+/-- `get_info`: sorts the clients in place when the count matches (the test for the main packet
+of an extended info was added by the second `fix:` commit; whether the source has it is regenerated) -/
 def getInfo (self : PartialInfo) : PartialInfo × Option ServerInfo :=
-  if (self.info.clients.length : Int) ≠ self.info.numClients then (self, none)
+  if GET_INFO_REQUIRES_MAIN ∧ self.info.infoVersion = .v6Ex ∧ self.received &&& 1 = 0 then (self, none)
+  else if (self.info.clients.length : Int) ≠ self.info.numClients then (self, none)
   else
     let info := { self.info with clients := sortClients self.info.clients }
     ({ self with info := info }, some info)
